@@ -20,7 +20,7 @@ from ..corpus import (
 from ..flow import get_cfg
 from ..mutant import Mutant
 from ..report import Report
-from .common import find_node, find_stmt, rule
+from .common import find_node, find_stmt, rule, unwrap_try
 
 PROP = "C04"
 READY = False
@@ -69,6 +69,14 @@ META = {
         "every call in the storing function that can re-enter it (nested directives). R10: the directive body / its offset, the option "
         "parser's remaining content and the included text are split with '\\n' semantics, not str.splitlines (which also splits on "
         "form feed, U+2028 ...), because markdown-it's token maps count '\\n' only. "
+        "R2 further: (e) the content_offset keyword of a directive instantiation must be absolute (contain an L1/P anchor) - an "
+        "OFF-only value is relative to the directive (known finding); a call site tabled SYNTHETIC (html_to_nodes) may hand "
+        "run_directive made-up option lines, but not made-up lines glued to body text (known finding for html_admonition). "
+        "R5 also rejects a tuple as Sphinx logging location (read as (docname, line): a path gets a second suffix, a docname ignores the "
+        "include swap); the location must be a node whose .source store is judged. "
+        "R11: the nodes returned by `directive_instance.run()` get .line and .source (if unset) on every normal path before run_directive "
+        "returns them, and every nested rST parse on the shared reporter (a docutils RSTParser subclass's parse()) sits in a try whose "
+        "finally deletes/restores reporter.get_source_and_line. "
         "R8: a value returned by a package function that was given a line (L1/P kind) is not stored in a mapping that outlives the call "
         "(module global, attribute, document/env) under a key that omits that line - a replay would carry the first occurrence's lines."
     ),
@@ -77,7 +85,7 @@ META = {
         "stamped from carries a map and is the right one when several are in scope (e.g. td tokens have no map); line constants such as "
         "literal_block.line = 1 in the include mock; nodes created by third-party directives; front-matter pseudo nodes (outside the "
         "quantifier); third-party state such as a reporter.get_source_and_line left behind by an earlier rST parse beyond the three swapped "
-        "locations; runtime values of option offsets"
+        "locations; runtime values of option offsets; what third-party directives do with the offsets they are handed"
     ),
     "trusted_base": [
         "CPython ast",
@@ -93,7 +101,7 @@ META = {
     ],
 }
 
-R1, R2, R3, R4, R5, R6, R7, R8, R9, R10 = "C04.R1", "C04.R2", "C04.R3", "C04.R4", "C04.R5", "C04.R6", "C04.R7", "C04.R8", "C04.R9", "C04.R10"
+R1, R2, R3, R4, R5, R6, R7, R8, R9, R10, R11 = "C04.R1", "C04.R2", "C04.R3", "C04.R4", "C04.R5", "C04.R6", "C04.R7", "C04.R8", "C04.R9", "C04.R10", "C04.R11"
 
 
 # ---------------------------------------------------------------------------
@@ -671,12 +679,25 @@ class Kinds:
                 return True
             if e.func.attr == "split" and e.args and isinstance(e.args[0], ast.Constant) and e.args[0].value == "\n":
                 return True
+        if isinstance(e, ast.Call) and self.line_splitter_arg(e, fi) is not None:
+            return True
         if isinstance(e, ast.Subscript) and isinstance(e.slice, ast.Slice):
             return self.is_lines(e.value, fi, depth + 1)
         if isinstance(e, ast.Name):
             ds = [v for _, v, how in _defs(fi, e.id) if how == "assign" and v is not None]
             return bool(ds) and any(self.is_lines(v, fi, depth + 1) for v in ds)
         return False
+
+    def line_splitter_arg(self, call: ast.Call, fi: FunctionInfo) -> ast.expr | None:
+        """``split_lines(text)``: a one-argument package function that returns the lines of its argument -> that argument."""
+        if len(call.args) != 1 or call.keywords or isinstance(call.func, ast.Attribute) and call.func.attr in ("splitlines", "split", "join"):
+            return None
+        for t in self.g.resolve_call(call, fi):
+            if isinstance(t, FunctionInfo) and not t.is_lambda and len([p_ for p_ in t.params if p_ not in ("self", "cls")]) == 1:
+                rets = [r.value for r in t.local_nodes() if isinstance(r, ast.Return) and r.value is not None]
+                if rets and all(self.is_lines(r, t, 2) for r in rets):
+                    return call.args[0]
+        return None
 
     # -- kinds ---------------------------------------------------------------------
     def kind(self, e: ast.expr | None, fi: FunctionInfo, depth: int = 0) -> frozenset:
@@ -878,7 +899,7 @@ def _kinds(corpus: Corpus) -> Kinds:
 
 
 # -- (b) convention table: where does the text handed on start, relative to the anchor of its line argument?
-AFTER, ON, START, NOT_JUDGED = "AFTER", "ON", "START", "NOT-JUDGED"
+AFTER, ON, START, NOT_JUDGED, SYNTHETIC = "AFTER", "ON", "START", "NOT-JUDGED", "SYNTHETIC"
 CONV_DOC = {
     AFTER: "the text starts on the line AFTER the anchor line (directive body, colon-fence content): lineno = L1(anchor) [+ offset], no constant",
     ON: "the text starts ON the anchor line: lineno = L1(anchor) - 1",
@@ -899,7 +920,7 @@ NRT_CONVENTION: dict[tuple[str, str], tuple[str, str]] = {
     ("nested_render_text", "myst_parser.mocking:MockInliner.parse"): (ON, "docutils hands the 1-based line the text is ON (EXTERNAL_PARAMS)"),
     ("nested_render_text", "myst_parser.mdit_to_docutils.base:DocutilsRenderer.render_blockquote"): (NOT_JUDGED, "attribution text comes from an attribute block whose own line is not on the token"),
     ("run_directive", "myst_parser.mdit_to_docutils.base:DocutilsRenderer.render_directive"): (AFTER, "token.content begins on the line after the fence line"),
-    ("run_directive", "myst_parser.mdit_to_docutils.html_to_nodes:html_to_nodes"): (NOT_JUDGED, "synthetic directive text built from HTML attributes"),
+    ("run_directive", "myst_parser.mdit_to_docutils.html_to_nodes:html_to_nodes"): (SYNTHETIC, "directive text synthesised from HTML attributes: fine while it has no body to locate"),
 }
 
 
@@ -1003,6 +1024,28 @@ def r2_line_kinds(corpus: Corpus, rep: Report, tier: str):
             conv, why = NRT_CONVENTION[ck]
             if conv == NOT_JUDGED:
                 rep.listed(R2, k, site, why)
+                continue
+            if conv == SYNTHETIC:
+                # option lines made up from attributes + (possibly) body text taken from the source: the body is then rendered at
+                # position + (number of made-up lines), which has nothing to do with where it stands in the file
+                tidx_, tname_ = (0, "text") if sink.name == "nested_render_text" else (2, "content")
+                te = arg_or_kw(call, tidx_, tname_)
+                for _hop in range(3):
+                    if isinstance(te, ast.Name) and _owner_of_param(cfi, te.id) is None:
+                        # the definition in force at the call: the last one before it inside a block that also holds the call
+                        anc = {id(a_) for a_ in ancestors(call)}
+                        ds_ = [(s_, v_) for s_, v_, h_ in _defs(cfi, te.id) if h_ == "assign" and v_ is not None and s_ is not None and s_.lineno < call.lineno and id(parent(s_)) in anc]
+                        if ds_:
+                            te = max(ds_, key=lambda d_: d_[0].lineno)[1]
+                            continue
+                    break
+                parts = [t_ for t_ in (_sum_terms(te) if te is not None else []) if not isinstance(t_, ast.Constant) and not (isinstance(t_, ast.IfExp) and isinstance(t_.body, ast.Constant) and isinstance(t_.orelse, ast.Constant))]
+                sfx_ = f"#{nth[cfi.fq]}" if nth[cfi.fq] > 1 else ""
+                ksyn = f"{cfi.fq}|{sink.name}|synthetic directive text" + sfx_
+                if len(parts) >= 2:
+                    rep.violation(R2, f"{cfi.fq}|{sink.name}|synthetic directive text with a body{sfx_}", site, f"{cfi.qualname} hands {sink.name}() a text glued together from made-up option lines and body text (`{short(te, 60)}`); the body is parsed at `{short(arg, 20)}` + the offset inside that made-up text, not at its place in the source (html_admonition: content on line 4 is reported at line 7)")
+                else:
+                    rep.ok(R2, ksyn, site, "made-up option lines only: nothing in them is located")
                 continue
             if arg is None:
                 rep.error(R2, f"{site}: no line argument in the call of {sink.name}")
@@ -1147,6 +1190,27 @@ def r2_line_kinds(corpus: Corpus, rep: Report, tier: str):
                 rep.ok(R2, k, fi.module.site(e), f"includes the content offset `{off_params[0]}`")
             elif others or const != 0:
                 rep.violation(R2, k, fi.module.site(e), f"`{short(e, 50)}` = {norm} locates something inside the block {fi.name}() was given, but the block's content offset `{off_params[0]}` is not added: the line is too low whenever the body does not start right after the directive line (blank line / option block before it)")
+    # ---- (e) the content_offset handed to a directive instance follows docutils' contract: the absolute 0-based line of the first content line
+    for fi in r2_funcs:
+        for n in sorted((x for x in fi.local_nodes() if isinstance(x, ast.Call)), key=lambda x: (x.lineno, x.col_offset)):
+            co = kwarg(n, "content_offset")
+            if co is None or kwarg(n, "lineno") is None or kwarg(n, "state") is None:
+                continue
+            k = uniq(f"{fi.fq}|directive content_offset={short(co, 40)}")
+            site = fi.module.site(co)
+            try:
+                terms, const = K.linear(co, fi)
+            except _Unknown:
+                terms, const = [(1, "?", short(co, 30))], 0
+            kinds = [kk for _s, kk, _t in terms]
+            if OFF in kinds and L1 not in kinds and PK not in kinds:
+                rep.violation(R2, k + " is relative to the directive", site, f"`content_offset={short(co, 40)}` counts from the line after the directive line, but docutils directives use content_offset (and the StringList offsets) as the ABSOLUTE 0-based line of the first content line: a directive that computes lines itself (parsed-literal, line-block, glossary, csv-table ...) reports them relative to the directive - `{{parsed-literal}}` on line 3 with one option line gives literal_block.line == 3, true 6; only MockState.nested_parse compensates by adding the directive line")
+            elif not terms:
+                rep.ok(R2, k, site, f"constant {const}: the content is a whole (included) file")
+            elif L1 in kinds or PK in kinds:
+                rep.ok(R2, k, site, "absolute")
+            else:
+                rep.error(R2, f"{site}: cannot tell whether content_offset `{short(co, 40)}` is absolute or relative")
     rep.expect_min(R2, 20, "line arithmetic, convention call sites and line sinks with a known kind")
 
 
@@ -1543,6 +1607,10 @@ def _string_origins(e: ast.expr, fi: FunctionInfo, corpus: Corpus, depth: int = 
         return set()
     seen.add(id(e))
     out: set[str] = set()
+    if isinstance(e, ast.Call):
+        la = _kinds(corpus).line_splitter_arg(e, fi)
+        if la is not None:
+            return _string_origins(la, fi, corpus, depth + 1, seen)
     if isinstance(e, ast.Call) and isinstance(e.func, ast.Attribute):
         f = e.func
         if f.attr == "join" and isinstance(f.value, ast.Constant) and f.value.value == "\n":
@@ -1934,7 +2002,17 @@ def r5_source_path(corpus: Corpus, rep: Report, tier: str):
                     break
                 alts = nxt
             if n.arg == "location":
-                alts = [a.elts[0] for a in alts if isinstance(a, ast.Tuple) and a.elts]  # a node object carries its own source
+                # a node object carries its own source (its .source store is judged above); a tuple is read by Sphinx as
+                # (DOCNAME, line): a path in it gets a source suffix appended ("index.md.rst:3"), a docname ignores the include swap
+                tuples = [a for a in alts if isinstance(a, ast.Tuple) and a.elts]
+                k_loc = f"{fi.fq}|{short(callee.func, 30)}(location=<node>)"
+                if tuples:
+                    first = tuples[0].elts[0]
+                    pk_ = _path_kind(first, fi, corpus)
+                    rep.violation(R5, f"{fi.fq}|{short(callee.func, 30)}(location={short(first, 40)})", fi.module.site(tuples[0]), f"the Sphinx logging location is the tuple `{short(tuples[0], 50)}`: Sphinx reads a tuple as (docname, line) - " + ("a source path in that place is printed with a second suffix ('/src/index.md.rst:3', a file that does not exist)" if pk_ == "path" or pk_.startswith("cached:") else "a docname is mapped to the document being read, so a warning from an included file is attributed to the including document") + "; pass a node carrying .source/.line instead")
+                elif alts:
+                    rep.ok(R5, k_loc, fi.module.site(n.value), "located by a node (its .source/.line stores are judged as stores)")
+                continue
             elif not (_is_reporter_call(callee) or fi.module.resolve(dotted(callee.func) or "").endswith("docutils.nodes.system_message")):
                 continue
             for a in alts:
@@ -2712,7 +2790,107 @@ def r10_line_model(corpus: Corpus, rep: Report, tier: str):
     rep.expect_min(R10, 2, "functions that split a directive body or an included file into lines")
 
 
-RULES = [r1_stamping, r2_line_kinds, r3_shift_once, r4_lossy_round_trip, r5_source_path, r6_body_offset_pairing, r7_start_accumulator, r8_line_free_cache, r9_anchor_fixed, r10_line_model]
+# ---------------------------------------------------------------------------
+# R11 what a directive run leaves behind: stamped output, no rST line function on the shared reporter
+
+
+@rule(R11)
+def r11_directive_boundaries(corpus: Corpus, rep: Report, tier: str):
+    rep.rule(R11, "nodes returned by a directive run get a fallback line/source before they leave run_directive; a nested rST parse does not leave its get_source_and_line on the shared reporter")
+    g = get_callgraph(corpus)
+    # (a) the result of `directive_instance.run()` is stamped on every normal path to the return
+    n_a = 0
+    for fi in _funcs(corpus):
+        for call, targets in g.callees(fi):
+            if not any(type(t).__name__ == "Special" and getattr(t, "kind", "") == "directive-run" for t in targets):
+                continue
+            p = parent(call)
+            if isinstance(p, ast.Return):
+                rep.listed(R11, f"{fi.fq}|{short(call, 40)} returned as is", fi.module.site(call), "handed on unchanged: judged where the outer directive run returns")
+                continue
+            if not (isinstance(p, ast.Assign) and len(p.targets) == 1 and isinstance(p.targets[0], ast.Name)):
+                rep.error(R11, f"{fi.module.site(call)}: the result of the directive run is not bound to a name")
+                continue
+            n_a += 1
+            R = p.targets[0].id
+            cfg = get_cfg(fi)
+            stamps: dict[str, set] = {"line": set(), "source": set()}
+            st_tab = _stampers(corpus)
+            for n in fi.local_nodes():
+                if isinstance(n, ast.For) and isinstance(n.iter, ast.Name) and n.iter.id == R and isinstance(n.target, ast.Name):
+                    lv = n.target.id
+                    for m in ast.walk(n):
+                        for t, _tv in _assign_pairs(m):
+                            if isinstance(t, ast.Attribute) and t.attr in stamps and isinstance(t.value, ast.Name) and t.value.id == lv:
+                                stamps[t.attr].add(n)
+                        if isinstance(m, ast.Call):
+                            for t_ in g.resolve_call(m, fi):
+                                if isinstance(t_, FunctionInfo):
+                                    for pn, attrs in st_tab.get(t_.fq, {}).items():
+                                        a_ = _arg_for(m, t_, pn.lstrip("*"))
+                                        if isinstance(a_, ast.Name) and a_.id == lv:
+                                            for at in attrs:
+                                                stamps[at].add(n)
+                elif isinstance(n, ast.Call):  # a list stamper: self.add_line_and_source_path_r(result, ...)
+                    for t_ in g.resolve_call(n, fi):
+                        if isinstance(t_, FunctionInfo):
+                            for pn, attrs in st_tab.get(t_.fq, {}).items():
+                                if pn.startswith("*"):
+                                    a_ = _arg_for(n, t_, pn[1:])
+                                    if isinstance(a_, ast.Name) and a_.id == R:
+                                        for at in attrs:
+                                            stamps[at].add(cfg.stmt_of(n))
+            rets = [cfg.stmt_of(r) for r in fi.local_nodes() if isinstance(r, ast.Return) and r.value is not None and R in _names(r.value)]
+            start = cfg.stmt_of(call)
+            k = f"{_key_owner(corpus, fi).fq}|nodes returned by the directive run get line and source"
+            missing = []
+            for at in ("line", "source"):
+                ev = stamps[at]
+                avoid = lambda n, ev=ev: n in ev or (isinstance(n, tuple) and n[0] == "H")  # noqa: E731
+                if any(cfg.paths_avoiding(start, r, avoid) for r in rets):
+                    missing.append(at)
+            if not rets:
+                rep.error(R11, f"{fi.module.site(call)}: {fi.name} does not return the directive's nodes")
+            elif missing:
+                rep.violation(R11, k, fi.module.site(call), f"the nodes a directive returns reach the caller without a fallback .{' / .'.join(missing)}: docutils' setup_child only fills them in when the parent is already attached to the document, which the node of an enclosing directive is not - a container/compound/rubric/list-table nested in another directive ends with line None and source None")
+            else:
+                rep.ok(R11, k, fi.module.site(call), "every element of the result gets .line/.source (if unset) before it is returned")
+    if n_a == 0:
+        rep.error(R11, "no directive run (`directive_instance.run()`) found")
+    # (b) a nested rST parse on the shared reporter is bracketed by the removal of the line function it installs
+    n_b = 0
+    for fi in _funcs(corpus):
+        for call in [n for n in fi.local_nodes() if isinstance(n, ast.Call) and isinstance(n.func, ast.Attribute) and n.func.attr == "parse"]:
+            recv = call.func.value
+            cname = (dotted(recv.func) or "").split(".")[-1] if isinstance(recv, ast.Call) else None
+            ci = corpus.find_class(fi.module.resolve(cname)) if cname else None
+            if ci is None or not any("docutils.parsers.rst" in b for b in corpus.external_bases(ci)):
+                continue
+            if fi.cls is not None and fi.cls.fq == ci.fq:
+                continue
+            n_b += 1
+            k = f"{_key_owner(corpus, fi).fq}|{cname}().parse leaves no get_source_and_line on the reporter"
+            site = fi.module.site(call)
+            ok = False
+            for a in ancestors(call):
+                if isinstance(a, ast.Try) and a.finalbody and any(call in ast.walk(s_) for s_ in a.body):
+                    for s_ in a.finalbody:
+                        for m in ast.walk(s_):
+                            if isinstance(m, ast.Delete) and any(isinstance(t, ast.Attribute) and t.attr == "get_source_and_line" for t in m.targets):
+                                ok = True
+                            for t, _tv in _assign_pairs(m):
+                                if isinstance(t, ast.Attribute) and t.attr == "get_source_and_line":
+                                    ok = True
+            if ok:
+                rep.ok(R11, k, site, "removed / restored in finally")
+            else:
+                rep.violation(R11, k, site, f"`{short(call, 50)}` runs docutils' rST state machine on the shared reporter; RSTState.runtime_init installs reporter.get_source_and_line when it is absent and nothing removes it afterwards, so later warnings of the Markdown document are mapped through the finished block's input lines (wrong file and line after an rST `.. include::`)")
+    if n_b == 0:
+        rep.error(R11, "no nested rST parse found")
+    rep.expect_min(R11, 2, "the directive run in run_directive and the eval-rst parse")
+
+
+RULES = [r1_stamping, r2_line_kinds, r3_shift_once, r4_lossy_round_trip, r5_source_path, r6_body_offset_pairing, r7_start_accumulator, r8_line_free_cache, r9_anchor_fixed, r10_line_model, r11_directive_boundaries]
 
 
 # ---------------------------------------------------------------------------
@@ -2898,6 +3076,7 @@ def mutants(corpus: Corpus):
             n
             for n in fo.local_nodes()
             if isinstance(n, ast.Call) and isinstance(n.func, ast.Attribute) and n.func.attr == "join" and isinstance(n.func.value, ast.Constant) and n.func.value.value == "" and n.args and isinstance(n.args[0], ast.GeneratorExp)
+            and isinstance(parent(n), ast.Assign) and unparse(parent(n).targets[0]) == "content"  # the re-joined remaining content (not the option block)
         ),
         key=lambda c: c.lineno,
     )
@@ -2962,9 +3141,46 @@ def mutants(corpus: Corpus):
     cw = wm.func("create_warning")
     loc = find_node(cw, lambda n: isinstance(n, ast.keyword) and n.arg == "location")
     tup = next((x for x in ast.walk(loc.value) if isinstance(x, ast.Tuple)), None) if loc is not None else None
-    add("c04-sphinx-location-by-docname", R5, wm, tup.elts[0] if tup is not None and tup.elts else None, "document.settings.env.docname", "location=", canary=False)
+    if tup is not None and tup.elts:
+        add("c04-sphinx-location-by-docname", R5, wm, tup.elts[0], "document.settings.env.docname", "location=")
+    else:
+        # the location is a node now: its .source must still be the swappable document path
+        lst = find_stmt(cw, lambda s: isinstance(s, ast.Assign) and any(isinstance(t, ast.Attribute) and t.attr == "source" and unparse(t.value) == "location" for t in _store_targets(s)))
+        lv = lst.value.elts[0] if lst is not None and isinstance(lst.value, ast.Tuple) else (lst.value if lst is not None else None)
+        add("c04-sphinx-location-by-docname", R5, wm, lv, "document.settings.env.docname", "location.source")
+        # revert of 8521cf6: back to a (path, line) tuple, which Sphinx reads as (docname, line)
+        if loc is not None:
+            add("c04-revert-sphinx-location-node", R5, wm, loc.value, 'node if node is not None else (document["source"], line)', "location=")
     st = find_stmt(cw, lambda s: isinstance(s, ast.Assign) and isinstance(s.targets[0], ast.Tuple) and isinstance(s.value, ast.Tuple) and unparse(s.targets[0].elts[0]) == "_source")
     add("c04-warning-node-source-by-docname", R5, wm, st.value.elts[0] if st is not None else None, "document.settings.env.docname", "source=")
+
+    # ---- R11: reverts of 3cad852 (stamp the directive's output) and a1935f5 (remove the rST line function)
+    f = base.func("DocutilsRenderer.run_directive")
+    loop = find_stmt(f, lambda s: isinstance(s, ast.For) and unparse(s.iter) == "result" and any(isinstance(t, ast.Attribute) and t.attr == "line" for m_ in ast.walk(s) for t, _v in _assign_pairs(m_)))
+    add("c04-revert-directive-output-stamped", R11, base, loop, "pass", "nodes returned by the directive run", canary=True)
+    if loop is not None:
+        src_st = next((m_ for m_ in ast.walk(loop) if isinstance(m_, ast.If) and "source is None" in unparse(m_.test)), None)
+        add("c04-directive-output-source-not-stamped", R11, base, src_st, "pass", "nodes returned by the directive run")
+    f = base.func("DocutilsRenderer.render_restructuredtext")
+    tr_ = find_stmt(f, lambda s: isinstance(s, ast.Try) and s.finalbody and "parse(" in unparse(s.body[0]))
+    if tr_ is not None:
+        out.append(Mutant("c04-revert-rst-line-function-removed", R11, base.rel, unwrap_try(f, tr_), expect="get_source_and_line"))
+    else:
+        out.append(("c04-revert-rst-line-function-removed", "try/finally around the eval-rst parse not found"))
+
+    # ---- R2 (e) / synthetic text: classes of the two known findings, on other constructs
+    f = base.func("DocutilsRenderer.run_directive")
+    cb = find_node(f, lambda n: isinstance(n, ast.Call) and kwarg(n, "content_offset") is not None and kwarg(n, "state") is not None)
+    co_ = kwarg(cb, "content_offset") if cb is not None else None
+    add("c04-directive-offset-shifted-but-still-relative", R2, base, co_, f"{unparse(co_)} + 1" if co_ is not None else "", "is relative to the directive")
+    h2 = corpus.mod("mdit_to_docutils.html_to_nodes")
+    f = h2.func("html_to_nodes")
+    img = sorted((n for n in f.local_nodes() if isinstance(n, ast.Call) and isinstance(n.func, ast.Attribute) and n.func.attr == "run_directive"), key=lambda c: c.lineno)
+    if img:
+        a2 = arg_or_kw(img[0], 2, "content")
+        add("c04-html-image-text-gets-a-body", R2, h2, a2, f'{unparse(a2)} + "\\n\\n" + child.render()' if a2 is not None else "", "synthetic directive text with a body")
+    else:
+        out.append(("c04-html-image-text-gets-a-body", "run_directive call in html_to_nodes not found"))
 
     # ---- R2 (d): positions inside a block include its content offset
     f = mk.func("MockState.block_quote")
